@@ -5,6 +5,12 @@ HERE = os.path.dirname(os.path.dirname(os.path.abspath(__file__)))
 
 # id -> (technique, level text, level note, design ref)
 CHECKS = {
+ "C11": ("generated-input crash search: exhaustive address x access-kind sweeps over all header configurations and banking states in forked workers + proptest write histories",
+         "All 504 supported header combinations (7 types x 12 ROM-size codes x 6 RAM-size codes) are loaded from in-memory files; for each, banking-register states at every mask edge x all 65536 addresses x byte/word read/write through the four extern bus helpers, OAM DMA from all 256 pages and the instruction-fetch view, plus generated write histories followed by full read sweeps. Oracle: the worker survives (no signal, abort or panic) in a build with overflow checks on. Quick rotates a third of the banking states per configuration; thorough runs the full product.",
+         "only crash-freedom is decided here (values are C10/C12); Core::with_code_block test cores are out of scope", "DESIGN.md §5 C11"),
+ "C12": ("model-based testing against a reference MBC register model: exhaustive register-value product per configuration + proptest write histories with shrinking",
+         "For each supported type x ROM size x RAM size, ROM banks and RAM banks are stamped with their own index; the full product of controller register values and generated histories of (address<0x8000, value) writes biased to range edges are applied, and after every write the bank visible at 0x0000, 0x4000-0x7FFF and 0xA000-0xBFFF is compared with models::mbc.",
+         "trusted: models::mbc (set-valued where documentation differs: MBC1 mode-1 upper bits at 0x4000); RAM enable not asserted", "DESIGN.md §5 C12"),
  "C01": ("differential testing jit vs interpreter: exhaustive operand enumeration per encoding + all-pointer sweeps + proptest-generated blocks with shrinking",
          "Two identical ROM-file cores inside the jit build; one runs interpreter::run_code_block, the other translate_code_block + call. Layer 1 sweeps every register-only encoding over its complete operand/flag space (translated once, called ~10^8 times), layer 2 sweeps the pointer register of every memory-accessing encoding over the address space (all region boundaries, I/O, bank registers; all 65536 values in thorough), layer 3 generates straight-line blocks with every terminator and placement class and shrinks failures. Compared: all registers as 32-bit fields, status class, ordered bus-write trace, complete memory/device state; a dead worker process is a violation.",
          "interpreter is the oracle (pinned by C05/C06); fixed cartridge (MBC1, 8 banks, 32 KiB RAM); multi-instruction contexts are sampled, not exhausted; host-register preservation is only observed through process survival", "DESIGN.md §5 C01"),
